@@ -19,6 +19,7 @@ from ..class_diagrams.class_diagram import (
     ClassRelation,
     WrappedClass,
 )
+from ..class_diagrams.failures import ClassIsUnMappedInClassDiagram
 from ..class_diagrams.wrapped_field import WrappedField
 
 logger = logging.getLogger(__name__)
@@ -127,6 +128,23 @@ class ORMatic:
         )
         for edge in self.class_dependency_graph.inheritance_relations:
             self.inheritance_graph.add_edge(edge.source.index, edge.target.index, None)
+        # a class whose direct base is not part of the diagram still derives its DAO from the DAO of its closest
+        # mapped ancestor: that ancestor has to come first in the topological order as well
+        for wrapped_class in self.class_dependency_graph.wrapped_classes:
+            for ancestor in wrapped_class.clazz.__mro__[1:]:
+                try:
+                    wrapped_ancestor = self.class_dependency_graph.get_wrapped_class(
+                        ancestor
+                    )
+                except ClassIsUnMappedInClassDiagram:
+                    continue
+                if not self.inheritance_graph.has_edge(
+                    wrapped_ancestor.index, wrapped_class.index
+                ):
+                    self.inheritance_graph.add_edge(
+                        wrapped_ancestor.index, wrapped_class.index, None
+                    )
+                break
 
     def _add_alternative_mappings_to_class_diagram(self):
         """
